@@ -48,6 +48,7 @@ use_repo()
 # pylint: disable=wrong-import-position
 from asyncssh.config import (ConfigParseError, SSHClientConfig,  # noqa: E402
                              SSHServerConfig)
+import asyncssh  # noqa: E402
 from asyncssh.misc import IllegalUserName  # noqa: E402
 from asyncssh.saslprep import SASLPrepError, saslprep  # noqa: E402
 
@@ -997,6 +998,127 @@ def run_client_model(case) -> CaseResult:
                                 'client-model:' + kind)
 
         return CaseResult(sorted(labels), nontrivial)
+    finally:
+        shutil.rmtree(root, ignore_errors=True)
+
+
+# ---------------------------------------------------------------------------
+# the same resolution reached through asyncssh.connect()
+# ---------------------------------------------------------------------------
+
+class _Probe(Exception):
+    pass
+
+
+class _FakeTunnel:
+    """Stands in for an SSH tunnel: connect() hands it the connection factory
+    and the address to connect to after all config passes; nothing is
+    opened"""
+
+    def __init__(self):
+        self.seen: Optional[Dict[str, Any]] = None
+
+    async def create_connection(self, factory, host, port):
+        conn = factory()
+        opts = conn._options           # pylint: disable=protected-access
+        self.seen = {'host': host, 'port': port, 'user': opts.username}
+        raise _Probe()
+
+
+def run_client_connect(case) -> CaseResult:
+    """connection.py feeds the config to SSHClientConfig twice (first pass,
+    then the canonical/final pass).  Whatever load_client() - the two-pass
+    evaluation written down from connection.py's documented behaviour and
+    validated against the evaluator and `ssh -G` by the other families -
+    resolves for Hostname / Port / User must be what a real
+    asyncssh.connect() ends up connecting to"""
+
+    import asyncio
+    root = tempfile.mkdtemp(prefix='c18c.')
+    t = case['target']
+    lu = t['lu']
+    labels = set()
+
+    if t.get('canon'):
+        # (canonicalisation needs name resolution)
+        return CaseResult(['canonical-skipped'], False)
+
+    try:
+        write_files(root, case['files'], lu)
+
+        with _Env(root, dict(case.get('env', {}), LOGNAME=lu, USER=lu)):
+            ref = load_client(case, root, lu)
+            paths = [file_path(root, k) for k in case['top']]
+            tunnel = _FakeTunnel()
+            kw: Dict[str, Any] = {'config': paths, 'tunnel': tunnel,
+                                  'known_hosts': None, 'client_keys': None,
+                                  'agent_path': None}
+
+            if t.get('user') is not None:
+                kw['username'] = t['user']
+
+            async def go():
+                await asyncssh.connect(t['host'], t['port'] if
+                                       t.get('port') is not None else (),
+                                       **kw)
+
+            loop = asyncio.new_event_loop()
+
+            try:
+                outcome: Any = None
+                try:
+                    loop.run_until_complete(go())
+                    outcome = 'connected'
+                except _Probe:
+                    outcome = 'probe'
+                except Exception as exc:  # pylint: disable=broad-except
+                    outcome = exc
+            finally:
+                loop.close()
+
+            if ref[0] != 'ok':
+                if outcome == 'probe':
+                    raise Violation('resolution', 'the config is rejected '
+                                    '(%s) when loaded, yet connect() went on '
+                                    'to open a connection' % ref[1],
+                                    'client-connect:error-ignored')
+                return CaseResult(['config-error'], False)
+
+            if outcome != 'probe':
+                # an option value the connection options refuse for a reason
+                # outside config resolution (e.g. a bind address)
+                return CaseResult(['connect-refused:' +
+                                   type(outcome).__name__], False)
+
+            opts = ref[1]
+            want = {'host': opts.get('Hostname', t['host']),
+                    'port': t['port'] if t.get('port') is not None
+                    else opts.get('Port', 22),
+                    'user': t['user'] if t.get('user') is not None
+                    else opts.get('User', lu)}
+
+            if SSHClientConfig.load(None, paths, False, False, False, lu,
+                                    t['user'] if t.get('user') is not None
+                                    else (), t['host'],
+                                    t['port'] if t.get('port') is not None
+                                    else ()).has_match_final():
+                labels.add('final-pass')
+
+                if want['host'] != t['host']:
+                    labels.add('final-pass+hostname-differs')
+
+            if want['host'] != t['host']:
+                labels.add('hostname-differs')
+
+            if tunnel.seen != want:
+                diff = [k for k in want if tunnel.seen.get(k) != want[k]]
+                raise Violation('resolution', 'asyncssh.connect(%r) ends up '
+                                'with %r; the two-pass evaluation of the same '
+                                'files gives %r' % (t['host'], tunnel.seen,
+                                                    want),
+                                'client-connect:' + diff[0])
+
+        return CaseResult(sorted(labels), 'final-pass' in labels)
     finally:
         shutil.rmtree(root, ignore_errors=True)
 
@@ -2136,6 +2258,12 @@ FAMILIES = [
                              'first-value-kept', 'error-expected',
                              'match-host-after-hostname', 'preset-user',
                              'match-exec']},
+           shards={'quick': 8, 'thorough': 16}),
+    Family('client-connect', run_client_connect,
+           strategy=lambda tier: client_case(tier, False),
+           budget={'quick': 600, 'thorough': 10000},
+           required={'all': ['final-pass', 'hostname-differs',
+                             'final-pass+hostname-differs']},
            shards={'quick': 8, 'thorough': 16}),
     Family('client-sshG', run_client_sshg,
            strategy=lambda tier: client_case(tier, True),
